@@ -399,6 +399,15 @@ def check_malformed(chk, cases):
             real_ok = False
             utf8_err = type(e).__name__ == 'CBORDecodeError' and 'text string' in str(e)
             chk.count('D:real-error=%s' % type(e).__name__)
+        if real_ok:
+            try:
+                ts = G.slot_text_audit(data, G.real_observable(back))
+            except Exception:  # noqa
+                ts = []
+            if ts:
+                chk.violation('C02:text-string-decoded-as-octets', 'a CBOR text string in a byte-string field (block data / '
+                              'CRC value) was decoded to the same octets as a byte string (block, field): %s' % ts,
+                              dict(replay, text_slots=ts))
         model_ok = o.get('raw') is not None
         cls = 'D:%s real=%s model=%s' % (kind, 'ok' if real_ok else 'error', 'ok' if model_ok else 'none')
         chk.count(cls)
@@ -407,10 +416,10 @@ def check_malformed(chk, cases):
             if None in (rawp['dest'], rawp['src'], rawp['rpt']) or utf8_err:
                 chk.count('D:outside-model text string that is not UTF-8')
                 continue
-            if _admin_payload_opaque(o['raw'], orig_payload):
-                chk.count('D:outside-model admin flag with a payload that is not the generated admin record')
-                continue
             chk.corr_break('D: model decodes octets on which the real decoder raises', replay)
+            if G.rfc_strict_ok(data):
+                chk.violation('C02:decode-raises-on-wellformed', 'Bundle(octets) raised on octets that an independent strict '
+                              'RFC 9171 reader finds well-formed (block data is opaque to the bundle decoder)', replay)
         elif real_ok and not model_ok:
             # real decoder more lenient than the declared subset: only a break when the octets are
             # the canonical encoding of what was decoded (then the model misses a valid encoding)
@@ -452,9 +461,6 @@ def check_pending_reenc(chk):
     for (replay, again), o in zip(pend, outs):
         adm = replay['norm']['primary']['flags'] & 2
         if again != o['hex']:
-            if adm:
-                chk.count('D:outside-model re-encoding of a parsed admin record')
-                continue
             replay = dict(replay)
             replay['real_reencoded'] = again
             replay['lean_reencoded'] = o['hex']
@@ -544,6 +550,80 @@ def d19_probe(chk):
             chk.corr_break('EID normalisation of %r: real %r, model %r' % (s, real, model), {'ssp': s})
 
 
+def check_foreign(chk, specs):
+    ''' F: bundles as another conforming sender could have produced them: block-type-specific data of the
+    block types this code parses (6, 7, 10, 11, 12, administrative payload) serialised differently
+    from this code's own encoder (longer heads, indefinite-length arrays, EID text the code would
+    normalise), and PAYLOAD_ADMIN payloads that are not a dissectable record. The bundle decoder has to
+    keep those octets: decoding never raises, field values are the received ones, re-encoding is
+    byte-identical and the received CRCs still check. '''
+    R = G.real()
+    rng = chk.rng
+    cases = []
+    for spec in specs:
+        sp = {'primary': dict(spec['primary']), 'blocks': [dict(b) for b in spec['blocks']], 'crc_mode': 'update'}
+        kinds = []
+        for b in sp['blocks']:
+            ex = b.get('extra')
+            if ex and ex['kind'] in ('prevnode', 'age', 'hopcount', 'asb', 'status'):
+                k, d = G.foreign_btsd(rng, b)
+                if d != b['btsd']:
+                    b['btsd'] = d
+                    kinds.append('%s:%s' % (ex['kind'], k))
+        pay = sp['blocks'][-1]
+        if sp['primary']['flags'] & 2 and rng.random() < 0.6:
+            k, d = G.gen_nonrecord_payload(rng)
+            pay['btsd'] = d
+            pay['extra'] = None
+            kinds.append('admin-payload:%s' % k)
+        if not kinds:
+            continue
+        full = _with_crcs(sp)
+        cases.append((full, kinds, G.spec_rfc_bytes(full)))
+    outs = chk.driver([{'op': 'bp.decode', 'hex': d.hex()} for _s, _k, d in cases])
+    for (full, kinds, data), o in zip(cases, outs):
+        replay = {'stream': 'F', 'kinds': kinds, 'hex': data.hex()}
+        chk.case(replay, sample=False)
+        for k in kinds:
+            chk.count('F:%s' % k)
+        expect = G.spec_observable(full)
+        try:
+            back = R['Bundle'](data)
+        except Exception as e:  # noqa
+            replay['error'] = '%s: %s' % (type(e).__name__, e)
+            chk.violation('C02:decode-raises-on-wellformed', 'Bundle(octets) raised %s on a well-formed bundle whose block '
+                          'data is serialised differently / is not a dissectable record' % type(e).__name__, replay)
+            continue
+        try:
+            seen = G.real_observable(back)
+        except Exception as e:  # noqa
+            seen = 'raised %s' % type(e).__name__
+        if seen != expect:
+            replay['decoded'] = seen
+            replay['expected'] = expect
+            chk.violation('C02:roundtrip-values', 'decoded field values (block-type-specific data included) differ from the received ones', replay)
+        try:
+            fails = sorted(int(x) if x is not None else -1 for x in back.check_all_crc())
+        except Exception as e:  # noqa
+            fails = 'raised %s' % type(e).__name__
+        if fails != []:
+            replay['check_all_crc'] = fails
+            chk.violation('C02:decoded-crc-invalid', 'check_all_crc() right after decoding a bundle with valid CRCs reports '
+                          'failing blocks: the block data was not kept as received', replay)
+        try:
+            again = bytes(back)
+        except Exception as e:  # noqa
+            again = None
+        if again != data:
+            replay['reencoded'] = again.hex() if again is not None else None
+            chk.violation('C02:reencode-bytes', 're-encoding the decoded bundle does not reproduce the octets', replay)
+        raw = G.lean_observable(o.get('raw'))
+        if raw != seen:
+            replay['lean_decoded'] = raw
+            chk.corr_break('F: decoded field values differ between real Bundle(data) and the model', replay)
+        chk.cov['traces_validated_against_impl'] += 1
+
+
 def check_agent_tx(chk, specs):
     ''' E: octets the real agent hands to a convergence layer (Agent.send_bundle, ctr.sender = capture) '''
     from . import c08
@@ -615,6 +695,8 @@ def run(chk):
         check_specs(chk, specs[k:k + B], 'AB')
         check_asb_model(chk)
     check_rfc_stream(chk, specs)
+    for k in range(0, len(specs), 2000):
+        check_foreign(chk, specs[k:k + 2000])
     cases = []
     for i in range(n_mal):
         spec = G.gen_bundle(rng, i, crc_mode='given')
